@@ -16,7 +16,8 @@ class ErrorHandling:
     def process(self, error_info):
         self.tokens = [t for t in error_info['tokens'] if t is not None]
         self.bad_token = error_info['bad_token']
-        self.expected_tokens = error_info['expected_tokens']
+        # sorted: the order the parser reports them in depends on the hash seed of the process
+        self.expected_tokens = sorted(error_info['expected_tokens'])
 
         if len(self.tokens) == 0:
             return 'Empty input'
